@@ -35,7 +35,7 @@ class C19(pure.Spec):
             "against a scripted fake server on loopback (kinds: close during handshake, abrupt loss, orderly close, 404, "
             "stalled handshake, undecodable frame, never-answered Connect, refused connection = listener closed, healthy), local connections opened while the "
             "tunnel is down: the delays between the server failing attempt k and accepting attempt k+1 (real time, "
-            "tolerance -25/+150 ms +10 %, a late sample is re-run up to twice before it counts), the final result, the "
+            "tolerance -25/+150 ms +10 %; a gap that is too long is re-run up to 4 times and the per-gap minimum counts), the final result, the "
             "number of attempts and which local connections got their bytes echoed are compared with the retry-loop "
             "model. Cells = (part, script shape, outcome).")
     assumptions = ["end-to-end part runs in real time on loopback: sampled scripts, timing compared with a tolerance",
@@ -67,18 +67,22 @@ class C19(pure.Spec):
         t = case.split()
         if t[1] != "2":
             return False
-        for attempt in range(3):
+        # A timer never fires early, so a delay that is too SHORT is wrong at once.  A delay that is too
+        # LONG may be the machine's load: the scenario is re-run (up to 4 more times) and for every gap the
+        # minimum over the runs is taken; a wrong delay is wrong in every run, lateness is not.
+        dm, rm = _split(model)
+        best = None
+        for attempt in range(5):
             di, ri = _split(impl)
-            dm, rm = _split(model)
             if di is None or dm is None or ri != rm or len(di) != len(dm):
-                ok = False
-            else:
-                ok = all(_close_enough(a, b) for a, b in zip(di, dm))
-            if ok:
-                return True
-            if attempt == 2:
                 return False
-            # re-run the scenario: lateness caused by load is transient, a wrong delay is not
+            if any(a < b - 25 for a, b in zip(di, dm)):
+                return False
+            best = di if best is None else [min(x, y) for x, y in zip(best, di)]
+            if all(_close_enough(a, b) for a, b in zip(best, dm)):
+                return True
+            if attempt == 4:
+                return False
             with tempfile.NamedTemporaryFile("w", suffix=".cases", delete=False) as f:
                 f.write(case + "\n")
             try:
